@@ -34,7 +34,27 @@ FUNCS = {
     "is_none": lambda x: x is None,
     "zero_if_none": lambda x: 0 if x is None else x,
 }
-TYPES = ["ta", "tb", "tc", "td", "te", "tf", "tg", "th", "ti", "tj"]
+# type names are arbitrary non-empty strings: some look like nested keys
+TYPES = ["ta", "tb", "tc", "td", "te", "tf", "p.lep", "p.had", "q.r.s", "tj"]
+
+
+class _MyDict(dict):
+    pass
+
+
+def _ctx_of_kind(d, kind):
+    """the context of a value is a dictionary or any subclass of it (lena.context.Context is one)"""
+    import collections
+    import lena.context
+    if kind == "Context":
+        return lena.context.Context(d)
+    if kind == "OrderedDict":
+        return collections.OrderedDict(d)
+    if kind == "subclass":
+        return _MyDict(d)
+    return d
+
+CTX_KINDS = ["dict", "dict", "dict", "Context", "OrderedDict", "subclass"]
 ATTRS = ["unit", "latex_name", "range", "color"]
 
 attr_vals = st.one_of(st.sampled_from(["u", "v", "cm"]), st.integers(0, 3),
@@ -100,6 +120,7 @@ def chain_case(draw):
     if ctx is not None and draw(st.integers(0, 5)) == 0:
         data = [data, {"det": "A"}]
     return {"pre": pre, "chain": chain, "ctx": ctx, "data": data,
+            "ctx_kind": draw(st.sampled_from(CTX_KINDS)),
             "repeat": draw(st.integers(1, 3)),
             "untyped_at": draw(st.one_of(st.none(), st.none(), st.integers(0, 4)))}
 
@@ -140,7 +161,7 @@ def mkdata(d):
 def mkvalue(case):
     if case["ctx"] is None:
         return mkdata(case["data"])
-    return (mkdata(case["data"]), copy.deepcopy(case["ctx"]))
+    return (mkdata(case["data"]), _ctx_of_kind(copy.deepcopy(case["ctx"]), case.get("ctx_kind", "dict")))
 
 
 def judge_chain(case):
@@ -173,7 +194,7 @@ def judge_chain(case):
     if r_seq[0] != d or r_cmp[0] != d:
         raise Violation("composed-data-differs",
                         "data seq=%r compose=%r expected %r for %s" % (r_seq[0], r_cmp[0], d, short(case)))
-    classes = ["len=%d" % len(flat), "pre=%d" % len(case["pre"]),
+    classes = ["len=%d" % len(flat), "pre=%d" % len(case["pre"]), "context:" + (case.get("ctx_kind", "dict") if case["ctx"] is not None else "none"),
                "nested" if len(flat) != len(chain) else "flat",
                "untyped" if untyped else "typed"]
     has_kw = any("kw" in n for n in chain)
@@ -287,20 +308,50 @@ def combine_case(draw):
         for v in vs[1:]:
             if draw(st.booleans()):
                 v["name"] = vs[0]["name"]
+    elif draw(st.integers(0, 2)) == 0:
+        # components that are themselves combined or composed variables (also a single one)
+        ti = n
+        for i in range(n):
+            k = draw(st.sampled_from(["var", "combine", "combine", "compose"]))
+            if k == "var" or ti + 2 > len(TYPES):
+                continue
+            m = draw(st.integers(1, 2))
+            sub = [vs[i]] + [draw(varspec(10 * (i + 1) + j, types[ti + j])) for j in range(m - 1)]
+            ti += m - 1
+            vs[i] = {k: sub}
     ctx = draw(st.one_of(st.none(), st.dictionaries(
         st.sampled_from(["z", "q"]), st.integers(0, 3), max_size=2)))
     data = draw(st.integers(-5, 5))
     if ctx is not None and draw(st.integers(0, 5)) == 0:
         data = [data, {"det": "A"}]
     return {"vars": vs, "ctx": ctx, "data": data,
+            "ctx_kind": draw(st.sampled_from(CTX_KINDS)),
             "name": draw(st.one_of(st.none(), st.just("cmb"))),
             "untyped": draw(st.booleans()),
             "ctype": draw(st.sampled_from([None, None, "point"])),
             "kw": draw(st.dictionaries(st.sampled_from(ATTRS), attr_vals, max_size=1))}
 
 
+def _build_component(s, untyped):
+    if "combine" in s:
+        return Combine(*[build_var(x, untyped) for x in s["combine"]])
+    if "compose" in s:
+        return Compose(*[build_var(x, untyped) for x in s["compose"]])
+    return build_var(s, untyped)
+
+
+def _component_data(s, d):
+    if "combine" in s:
+        return tuple(FUNCS[x["f"]](d) for x in s["combine"])
+    if "compose" in s:
+        for x in s["compose"]:
+            d = FUNCS[x["f"]](d)
+        return d
+    return FUNCS[s["f"]](d)
+
+
 def judge_combine(case):
-    vs = [build_var(s, case["untyped"]) for s in case["vars"]]
+    vs = [_build_component(s, case["untyped"]) for s in case["vars"]]
     snaps = [copy.deepcopy(v.var_context) for v in vs]
     kw = copy.deepcopy(case["kw"])
     if case["name"]:
@@ -311,13 +362,13 @@ def judge_combine(case):
     csnap = copy.deepcopy(c.var_context)
     val = mkvalue(case)
     data, ctx = c(val)
-    exp = tuple(FUNCS[s["f"]](mkdata(case["data"])) for s in case["vars"])
+    exp = tuple(_component_data(s, mkdata(case["data"])) for s in case["vars"])
     if data != exp or not isinstance(data, tuple):
         raise Violation("combine-data-differs", "%r expected %r" % (data, exp))
     cv = ctx.get("variable", {})
     if tuple(cv.get("combine", ())) != tuple(snaps) or cv.get("dim") != len(vs):
         raise Violation("combine-context-differs", "%r expected combine %r" % (cv, snaps))
-    exp_name = case["name"] or "_".join(s["name"] for s in case["vars"])
+    exp_name = case["name"] or "_".join(v.name for v in vs)
     if cv.get("name") != exp_name:
         raise Violation("combine-name", "%r expected %r" % (cv.get("name"), exp_name))
     for a, v in case["kw"].items():
@@ -347,7 +398,11 @@ def judge_combine(case):
     data2, ctx2 = c(mkvalue(case))
     if data2 != exp or tuple(ctx2["variable"]["combine"]) != tuple(snaps):
         raise Violation("repeated-application-differs", "%r" % (ctx2,))
-    return {"nontrivial": len(vs) >= 2, "classes": ["dim=%d" % len(vs)]}
+    nested = [k for s in case["vars"] for k in ("combine", "compose") if k in s]
+    return {"nontrivial": len(vs) >= 2 or bool(nested),
+            "classes": ["dim=%d" % len(vs), "context:" + case.get("ctx_kind", "dict")]
+            + ["component:" + k for k in nested]
+            + (["single-combine-component"] if len(vs) == 1 and "combine" in case["vars"][0] else [])}
 
 
 def strat_bad(tier):
